@@ -1,16 +1,17 @@
 import Proofs.SmfTotal
+import Proofs.GramCutTop
 /-!
 # C05 — reading malformed or truncated SMF data fails cleanly and never fabricates
 
 Proved here for every byte string: the reader model terminates without exhausting its fuel (the
 model has no panic branch: every outcome is a value or an error class), and every decoded event
 consumed input (so the work, and the requested buffer sizes, are bounded by the input).
-The truncation clause (every proper prefix of a valid file reads as an error or as an event prefix)
-is at present decided differentially at EVERY cut of the generated files (see `lib/props/C05.json`);
-`cut_event_*` below are the event-level facts it rests on.
+The truncation clause is `prefix_safe`: for every valid SMF 1.0 syntax tree (the grammar of C02, with
+all its encoding choices) and every cut position, the reader returns an error or a value whose tracks
+are event-for-event prefixes of the original tracks.
 -/
 namespace Midi.C05
-open Midi Midi.Smf
+open Midi Midi.Smf Midi.Gram
 
 /-- for every byte string whatsoever the reader returns a file value or an error class:
     it never runs out of fuel (termination of the Go loops) -/
@@ -46,6 +47,36 @@ theorem payload_short_is_error (n : Nat) (bs : Bytes) (h : bs.length < n) :
   by_cases he : bs = []
   · simp [h0, he]
   · simp [h0, he, h]
+
+/-- For every proper (indeed every) prefix of a valid file the result is either an error or a value with
+    the original format, division and number of tracks whose tracks are event-for-event prefixes of the
+    original tracks: nothing is invented, reordered or altered by truncation. -/
+theorem prefix_safe (g : GFile) (h : g.Valid) (k : Nat) :
+    match readFrom ((serialize g).take k) with
+    | .ok f => f.format = g.format ∧ f.tf = g.tf ∧ TracksPrefix f.tracks (meaning g).tracks
+    | .error _ => True :=
+  readFrom_prefix g h k
+
+/-- a cut inside any single event never decodes to a complete event: the decoder reports `io.EOF`,
+    unexpected EOF, or (second data byte missing) an empty message with the input exhausted — and in
+    the last case the next read fails, so the file is rejected -/
+theorem cut_event_never_fabricates (rr : Nat) (e : GEvent) (hd : e.delta.Valid) (hv : e.ev.Valid)
+    (hel : match e.ev with | .chan s _ _ true => rr = s | _ => True) (m : Nat) (hm : m < e.bytes.length) :
+    readEvent rr (e.bytes.take m) = .error .eof ∨ readEvent rr (e.bytes.take m) = .error .ueof ∨
+    ∃ δ s, readEvent rr (e.bytes.take m) = .ok ⟨δ, [], s, []⟩ :=
+  readEvent_cut rr e hd hv hel m hm
+
+/-- `TracksPrefix` is what it says: same number of tracks, each a list prefix -/
+theorem tracksPrefix_spec (ts M : List Track) (h : TracksPrefix ts M) :
+    ts.length = M.length ∧ ∀ i (h1 : i < ts.length) (h2 : i < M.length), ts[i] <+: M[i] := by
+  induction h with
+  | nil => exact ⟨rfl, fun i h1 _ => absurd h1 (by simp)⟩
+  | cons hab _ ih =>
+    refine ⟨by simp [ih.1], ?_⟩
+    intro i h1 h2
+    cases i with
+    | zero => simpa using hab
+    | succ j => simpa using ih.2 j (by simpa using h1) (by simpa using h2)
 
 example : readFrom [0x4D, 0x54, 0x68, 0x64, 0, 0, 0, 6, 0, 0, 0, 1, 0, 0x60, 0x4D, 0x54, 0x72, 0x6B, 0, 0, 0, 4, 0, 0x40, 0x40, 0x40]
     = .error .other := by decide +kernel   -- stray data byte: an error, not a panic
